@@ -122,4 +122,16 @@ theorem triple_length_component_lost_a_digit :
     (Pin.fmtHexW 32 (16 ^ 46)).length = 47 ∧ (Pin.fmtHexW 48 (16 ^ 46)).length = 48 := by
   decide +kernel
 
+/-! ### C01/C02: a `decimal` typed variable-length element (configured length 0) could not be encoded -/
+
+/-- the pre-fix format specification `'0' + str(field_length) + 'f'` is '00f' for a configured length of 0, which
+    `format` refuses with ValueError -/
+def fmtDecFBefore (w : Nat) (d : Dec) : Option Text := if w = 0 then none else fmtDecF w d
+
+/-- Decimal('12.5') in an LLVAR element with field_length 0: ValueError before, "12.5" after fix 43f0702 -/
+theorem decimal_in_variable_element_refused :
+    fmtDecFBefore 0 ⟨false, [1, 2, 5], .fin (-1)⟩ = none ∧
+    fmtDecF 0 ⟨false, [1, 2, 5], .fin (-1)⟩ = some [49, 50, 46, 53] := by
+  decide
+
 end Cardutil.Legacy
